@@ -97,6 +97,7 @@ func (c *collection) updateWithFilter(
 	docMap := selectionPlan.DocumentMap()
 
 	// Keep looping until results from the selection plan have been iterated through.
+	updatedDocIDs := make(map[string]struct{})
 	for {
 		next, nextErr := selectionPlan.Next()
 		if nextErr != nil {
@@ -106,6 +107,14 @@ func (c *collection) updateWithFilter(
 		if !next {
 			break
 		}
+
+		// A document is updated once: when the update moves its entry in the index the scan is served
+		// from, the scan can meet the document again further on.
+		selectedDoc := selectionPlan.Value()
+		if _, isUpdated := updatedDocIDs[selectedDoc.GetID()]; isUpdated {
+			continue
+		}
+		updatedDocIDs[selectedDoc.GetID()] = struct{}{}
 
 		// Get the document, and apply the patch
 		docAsMap := docMap.ToMap(selectionPlan.Value())
